@@ -87,7 +87,6 @@ NoIt == [on |-> FALSE]
 \* version it was created from (kept by value: later updates of the slot
 \* must not be seen)
 Src(i) == IF i.live THEN m ELSE i.mp
-SrcNext(i) == IF i.live THEN m' ELSE i.mp
 
 InRange(k, lo, hi) == (lo = 0 \/ k >= lo) /\ (hi = 0 \/ k < hi)
 Visible(mp, lo, hi) == {k \in Dom(mp) : InRange(k, lo, hi)}
